@@ -203,6 +203,9 @@ def r8_shared_initial_state(ctx):
 
 def run(ctx):
     rep = ctx.rep
+    rep.rule("C09.R9", "the default l_ref is evaluated on the RAW q0 while forces use the projected System.q0: a rigid body's pose must not depend on the length of its quaternion (normalising rotation kernel)", 4)
+    from .c11 import normalising_rule
+    normalising_rule(ctx, "C09.R9", lambda rel: rel == "cardillo/discrete/rigid_body.py", 4)
     rep.rule("C09.R8", "initial internal state of force laws is not shared: no in-place write into a contribution's q0 / u0 while a constructor stores a mutable default array uncopied", 1)
     r8_shared_initial_state(ctx)
     rep.rule("C09.R7", "initial coordinates reach the default reference length as floating point and un-truncated", 4)
@@ -478,6 +481,10 @@ MUTANTS += [
                 ("cardillo/discrete/point_mass.py", "np.asarray(q0, dtype=float)", "np.asarray(q0)")], expect="C09.R7"),
     dict(id="c09-r7-1", what="RigidBody keeps the dtype of a user-supplied q0 (original defect F46)", file="cardillo/discrete/rigid_body.py",
          old="            else np.asarray(q0, dtype=float)\n", new="            else np.asarray(q0)\n", expect="C09.R7"),
+]
+MUTANTS += [
+    dict(id="c09-r9-seed", canary=True, what="[seeded by sub-agent] RigidBody.A_IB built with the non-normalising quaternion map", file="cardillo/discrete/rigid_body.py",
+         old="        return Exp_SO3_quat(q[3:])\n", new="        return Exp_SO3_quat(q[3:], normalize=False)\n", expect="C09.R9"),
 ]
 SYS_ = "cardillo/system.py"
 MUTANTS += [
